@@ -638,7 +638,7 @@ def parts(tier):
             CH("table4", "vflib.props.c05:scen_table", {"models": 4}, shards=12, timeout=170, path_timeout=30),
             CH("table2x2rounds", "vflib.props.c05:scen_table", {"models": 2, "rounds": 2, "wraps": True}, shards=2, timeout=170, path_timeout=30),
             CH("table5_flat", "vflib.props.c05:scen_table", {"models": 5, "flat_only": True}, shards=16, timeout=170, path_timeout=30),
-            CH("real", "vflib.props.c05:scen_real", {"keys": 4, "policies": ["default", "percent_50", "number_2"]}, shards=3, timeout=170, path_timeout=30),
+            CH("real", "vflib.props.c05:scen_real", {"keys": 4, "policies": ["default", "percent_50", "number_2"]}, shards=3, timeout=280, path_timeout=30),
             CH("real3", "vflib.props.c05:scen_real", {"keys": 3}, shards=8, timeout=170, path_timeout=30),
             CH("cli_three_roots", "vflib.props.c05:scen_cli_roots", {"keys": 4}, shards=16, timeout=170, path_timeout=30),
         ]
